@@ -931,6 +931,24 @@ func (env *SpecEnv) call(x *SCall) (Val, error) {
 		fname := fmt.Sprintf("ext_%s_%d", sanitize(kl.V), 0)
 		vc.declFun(fname, sorts, rs)
 		return Val{T: sApp(fname, ts...), S: rs, Typ: rt}, nil
+	case "deref":
+		// deref(p): the value behind a pointer to a non-struct value (struct fields are reached with p.f)
+		if len(x.Args) != 1 {
+			return Val{}, fmt.Errorf("deref takes one argument")
+		}
+		v, err := env.term(x.Args[0])
+		if err != nil {
+			return Val{}, err
+		}
+		pt, ok := v.Typ.Underlying().(*types.Pointer)
+		if !ok {
+			return Val{}, fmt.Errorf("deref of a non-pointer")
+		}
+		if _, isStruct := pt.Elem().Underlying().(*types.Struct); isStruct {
+			return Val{}, fmt.Errorf("deref of a pointer to a struct: select its fields instead")
+		}
+		hi := vc.derefHeap(pt.Elem())
+		return Val{T: "(select " + vc.heapGet(env.cur, hi) + " " + v.T + ")", S: vc.sorts.sortOf(pt.Elem()), Typ: pt.Elem()}, nil
 	case "typeid":
 		v, err := env.term(x.Args[0])
 		if err != nil {
@@ -943,11 +961,15 @@ func (env *SpecEnv) call(x *SCall) (Val, error) {
 		if err != nil {
 			return Val{}, err
 		}
-		id, ok := x.Args[1].(*SIdent)
-		if !ok {
+		tyName := ""
+		if id, ok := x.Args[1].(*SIdent); ok {
+			tyName = id.Name
+		} else if sl, ok := x.Args[1].(*SStrLit); ok {
+			tyName = sl.V // a type expression such as "*bool"
+		} else {
 			return Val{}, fmt.Errorf("istype: second argument must be a type name")
 		}
-		ty, err := vc.eng.resolveType(id.Name, env.pkg)
+		ty, err := vc.eng.resolveType(tyName, env.pkg)
 		if err != nil {
 			return Val{}, err
 		}
@@ -958,11 +980,15 @@ func (env *SpecEnv) call(x *SCall) (Val, error) {
 		if err != nil {
 			return Val{}, err
 		}
-		id, ok := x.Args[1].(*SIdent)
-		if !ok {
+		tyName := ""
+		if id, ok := x.Args[1].(*SIdent); ok {
+			tyName = id.Name
+		} else if sl, ok := x.Args[1].(*SStrLit); ok {
+			tyName = sl.V
+		} else {
 			return Val{}, fmt.Errorf("unbox: second argument must be a type name")
 		}
-		ty, err := vc.eng.resolveType(id.Name, env.pkg)
+		ty, err := vc.eng.resolveType(tyName, env.pkg)
 		if err != nil {
 			return Val{}, err
 		}
